@@ -1,5 +1,6 @@
 #!/bin/bash
-# hand mutations of the repository worktree; each must make ./check C12 exit 1
+# self-test: hand mutations of the repository worktree ($VERIF_REPO must be /work/repo-C12 or edit R);
+# each must make ./check C12 exit 1; the worktree is reverted with git checkout after every run
 export VERIF_REPO=/work/repo-C12 VERIF_JOBS=4
 R=/work/repo-C12/src/radical/pilot/tmgr/scheduler
 cd /work/verif-C12
@@ -43,4 +44,8 @@ run M9-bf-stop-check-dropped $R/backfilling.py "                if  rps._pilot_s
 run M10-named-task-scheduled $R/base.py "                if pid:
                     # this task is bound already (it is early-bound), so we" "                if pid and pid in self._pilots:
                     # this task is bound already (it is early-bound), so we"
+run M11-bf-used-not-incremented $R/backfilling.py "                        info['used']   += cores" "                        info['used']   += 0"
+run M12-foreign-tmgr-accepted $R/base.py "        if tmgr and tmgr != self._tmgr:" "        if False:"
+run M13-rr-wait-pool-not-cleared $R/round_robin.py "                self._wait_pool = list()
+" ""
 echo ALLDONE
